@@ -53,7 +53,8 @@ def main():
     n_conc = len([r for r in rows if r[3] == "concrete input"])
     nfi = sorted(r[0] for r in rows if r[3] == "no-failing-input-found")
     missed = sorted(r[0] for r in rows if r[3] not in ("concrete input", "no-failing-input-found"))
-    out.append("\nThe seeds were written in five rounds (x-1/x-2 … x-9/x-10), each round's authors being told what the earlier "
+    n_rounds = max(int(r[0].split("-")[1]) for r in rows) // 2 if rows else 0
+    out.append("\nThe seeds were written in %d rounds (x-1/x-2 … x-%d/x-%d), each round's authors being told what the earlier "
                "rounds had changed. After every round the seeds a check missed, or reported without an input, were used to strengthen "
                "that check's generators and oracle (never its verdict rule), and the whole sweep was repeated. On the last sweep "
                "%d of %d seeded changes make their property's quick check exit 1; %d are reported with a concrete failing input on the "
@@ -63,7 +64,7 @@ def main():
                "arithmetic that C13's check reports with a concrete input, while the track-level statement of C14 is unaffected; "
                "C06-10 respells a note on the same letter and pitch, see 0.3b), so "
                "the report names the theorems that no longer check, as the brief prescribes." % (
-                   n_all - len(missed), n_all, n_conc, "" if not missed else "; NOT detected: " + ", ".join(missed),
+                   n_rounds, 2 * n_rounds - 1, 2 * n_rounds, n_all - len(missed), n_all, n_conc, "" if not missed else "; NOT detected: " + ", ".join(missed),
                    ", ".join(nfi) if nfi else "None"))
     text = "\n".join(out) + "\n"
     p = os.path.join(V, "DESIGN.md")
